@@ -1,6 +1,7 @@
 package c01
 
 import (
+	"strings"
 	"testing"
 
 	"verifharness/hx"
@@ -20,5 +21,13 @@ func TestC01(t *testing.T) {
 		"Get, FindMissing and GetFromComposite (other operations interleaved while the slicer runs) on real local stores assembled like new_blob_access.go: " +
 		"flat (both key formats), hierarchical CAS and AC flavour x in-memory/block-device allocator x in-memory/block-device index; old/current/new/spare tiny, " +
 		"sectors 1..16 bytes, sizes biased to 0,1,sector+-1,block,block+1; non-trivial = at least one block rotation; distinct by script hash")
+	// device level: the sector-sharing block writer (BB.SectorWriter)
+	if name, script := run.ReplayScript(); script != nil && strings.HasPrefix(script[0], "#sw") {
+		sectorCase(run, model, name, script)
+		return
+	}
+	if run.Replay == "" {
+		sectorCases(run, model, run.Scale(1500, 30000))
+	}
 	stx.Main(run, model, "C01", []string{"C01"}, []string{"flat", "flati", "hier", "hier", "ac"}, 2500, 40000)
 }
